@@ -13,7 +13,8 @@ from mc.result import Result
 PROPERTY = 'C04'
 LEVEL = 'model_checking'
 CHUNK = 80
-RULE = ('cases = ending (pass, failing assertion, and every single fault (step x kind) of a stub instruction in each phase, incl. '
+RULE = ('as an unprivileged user (forked child, uid 65534): 5 ways a case removes permissions from parts of its sandbox x {pass, fail}; ' +
+        'cases = ending (pass, failing assertion, and every single fault (step x kind) of a stub instruction in each phase, incl. '
         'validation faults before the sandbox exists) x mode (normal, --keep, --act) x behaviour of the case (plain, cd to tmp / new dir / nested dir that is '
         'later deleted, env set+unset in both sets, files made read-only, children writing to tmp/, instructions that need internal temp '
         'files) x output of the action (empty, no final newline, 70 kB on both streams); '
@@ -209,9 +210,13 @@ def _unpriv(case) -> Result:
         out = {}
         try:
             world._WORLD_PID[0] = os.getpid()  # the child works in the parent's world
-            os.setgroups([])
-            os.setgid(65534)
-            os.setuid(65534)
+            try:
+                os.setgroups([])
+                os.setgid(65534)
+                os.setuid(65534)
+            except OSError as ex:
+                os.write(wfd, json.dumps({'skip': 'cannot drop privileges: %s' % ex}).encode('utf-8'))
+                os._exit(0)
             o = cli.run_case(text)
             out = {'ident': o.ident, 'rc': o.rc, 'exc': o.exc, 'sandboxes': w.sandboxes(), 'err': o.err[:600], 'uid': os.getuid()}
         except BaseException as ex:  # noqa
@@ -232,6 +237,9 @@ def _unpriv(case) -> Result:
     got = json.loads(data.decode('utf-8')) if data else {'exc': 'harness: no result from the child'}
     errs = []
     want = 'PASS' if ending == 'pass' else 'FAIL'
+    if got.get('skip'):
+        res.stats['unpriv: ' + got['skip']] += 1
+        return res
     if got.get('exc'):
         errs.append('exception: %s' % got['exc'])
     elif got.get('uid') == 0:
